@@ -222,6 +222,30 @@ def _main(a, prop, tier, seed, t0):
                 violations.append({"obligation": v.get("clause", "bounded"), "contract": "bounded", "target": v.get("target", ""),
                                    "what": v["what"], "input": v.get("input"), "replayed": True, "key": v.get("key")})
 
+    # ------------------------------------------------------------------ native cross-check of the cone's contracts (bounded; real code vs. clauses)
+    native = {"contracts": 0, "samples": 0}
+    try:
+        import random as _random
+        import numpy as _np
+        from runtime import rtcheck
+        from pyvc.contracts import all_contracts
+        cone_idents = {r.get("ident") for r in results.values()}
+        rtcheck.load_repo(a.repo)
+        rng = _random.Random(seed)
+        for c in all_contracts():
+            if c.ident in cone_idents and rtcheck.amenable(c):
+                with _np.errstate(all="ignore"):
+                    rr = rtcheck.check_contract(c, a.repo, rng, 25 if tier == "quick" else 250, budget_s=3.0 if tier == "quick" else 20.0)
+                native["contracts"] += 1
+                native["samples"] += rr["accepted"]
+                for f in rr["failures"][:1]:
+                    violations.append({"obligation": f"native[{c.ident}#{f['clause']}]", "contract": c.ident, "target": c.target,
+                                       "what": f"native cross-check of contract {c.ident}: {f['clause']} {f['what'][:300]}",
+                                       "input": {"rtcheck": True, "contract": c.ident, "args": f["input"]}, "replayed": True})
+    except Exception:
+        traceback.print_exc()
+        crashes.append("native contract cross-check crashed")
+
     # ------------------------------------------------------------------ thorough: engine self-test (numpy axioms + mutants on scratch copies)
     if tier == "thorough" and a.repo == "/repo":
         from vlib import selftest
@@ -231,10 +255,13 @@ def _main(a, prop, tier, seed, t0):
     # ------------------------------------------------------------------ replay counter-models of failed obligations
     from vlib import replay as rp
     out_violations = []
+    replay_cache = {}
     for v in violations:
         if not v.get("replayed"):
             try:
-                rr = rp.replay_model(a.repo, v)
+                if v.get("contract") not in replay_cache:
+                    replay_cache[v.get("contract")] = rp.replay_model(a.repo, v)
+                rr = replay_cache[v.get("contract")]
             except Exception:
                 rr = None
             if rr and rr.get("violated"):
@@ -265,6 +292,8 @@ def _main(a, prop, tier, seed, t0):
         "known_findings_seen": [k["id"] for k in known_seen],
         "explanation": meta.get("explanation", ""),
     }
+    cov["native_contract_crosscheck"] = {**native, "what": "real functions run by CPython on random small inputs satisfying `requires`; `ensures` / `raises` "
+                                         "evaluated natively on the real results (bounded; guards against an unsound encoding)"}
     if bounded:
         cov["bounded"] = {k: bounded[k] for k in bounded if k not in ("violations", "samples")}
         cov["evaluations"] = int(bounded.get("evaluations", 0))
@@ -287,6 +316,7 @@ def _main(a, prop, tier, seed, t0):
     for k in known_seen:
         print(f"KNOWN-FINDING: property={prop} {k['what']}")
     if out_violations:
+        out_violations.sort(key=lambda v: not v.get("replayed"))       # violations with a concrete failing input first
         for n, v in enumerate(out_violations[:5]):
             path = os.path.join(REPLAYS, f"{prop}-{n}.json")
             with open(path, "w") as fh:
